@@ -4,6 +4,7 @@ import (
 	"fmt"
 	"go/ast"
 	"go/types"
+	"golang.org/x/tools/go/cfg"
 	"regexp"
 	"sort"
 	"strings"
@@ -913,14 +914,32 @@ func c08Unregister(c *core.Ctx) {
 				}
 				ended := false
 				if call.In == owner {
-					owner.InspectShallow(func(n ast.Node) bool {
-						if l, isFor := n.(*ast.ForStmt); isFor && an.InNode(l, call.Expr) {
-							if _, _, done := g.LoopBlocks(l); done != nil && g.Dom(done, ub) {
-								ended = true
+					// the removal cannot be followed by this heartbeat: its block is not reachable from the removal's
+					hb := g.Locate(call.Expr).B
+					seen := map[*cfg.Block]bool{}
+					var reach func(b *cfg.Block) bool
+					reach = func(b *cfg.Block) bool {
+						if b == hb {
+							return true
+						}
+						if seen[b] {
+							return false
+						}
+						seen[b] = true
+						for _, n := range b.Succs {
+							if reach(n) {
+								return true
 							}
 						}
-						return true
-					})
+						return false
+					}
+					after := false
+					for _, n := range ub.Succs {
+						if reach(n) {
+							after = true
+						}
+					}
+					ended = hb != nil && hb != ub && !after
 				}
 				if !ended {
 					ok = false
